@@ -252,7 +252,10 @@ func cmdCheck(args []string) int {
 					tagged = true
 				}
 			}
-			if strings.HasPrefix(o.Kind, "frame") || o.Kind == "nonvacuous" || tagged {
+			// (and the loop invariants: a frame obligation inside or after a loop is proved under the
+			// assumed invariant, e.g. "the slice being appended to is fresh", so the invariant's own
+			// obligations belong to the frame proof — seeded change C20-8)
+			if strings.HasPrefix(o.Kind, "frame") || o.Kind == "nonvacuous" || tagged || o.Kind == "inv-entry" || o.Kind == "inv-preserved" {
 				keep = append(keep, o)
 			}
 		}
